@@ -107,6 +107,7 @@ pub fn expr(e: &Expr) -> Sx {
     match e {
         Expr::Lit(l) if l.attrs.is_empty() => tagged("elit", vec![lit(&l.lit)]),
         Expr::Path(p) if p.attrs.is_empty() && p.qself.is_none() => tagged("epath", vec![path(&p.path), lo, hi]),
+        Expr::Path(p) if p.attrs.is_empty() => tagged("eqpath", vec![path(&p.path), st(toks(e)), lo, hi]),
         Expr::Group(g) => tagged("egroup", vec![expr(&g.expr), lo, hi]),
         Expr::Array(a) => tagged(
             "earray",
